@@ -1062,7 +1062,10 @@ class Interp:
     def loop_spec(self, frame, ordinal):
         if self.registry is None:
             return None
-        return self.registry.loop_spec(frame.qualname, frame.filename, ordinal)
+        spec = self.registry.loop_spec(frame.qualname, frame.filename, ordinal)
+        if spec is not None and getattr(spec, "only", None) is not None and self.cfg.get("lemma_name") not in spec.only:
+            return None
+        return spec
 
     def exec_loop_with_invariant(self, s, frame, spec, kind, iterable=None):
         return self.models.loop_with_invariant(self, s, frame, spec, kind, iterable)
